@@ -688,6 +688,89 @@ theorem commitLoop_strict (w b : Nat) (script : List Nat) (n total ts r : Nat)
       · simp at h
       · exact ih _ _ _ h
 
+/-! ### commit paths -/
+
+theorem commitLoopR_strict (w b : Nat) (script : List Nat) (n total ts r : Nat) (rest : List Nat)
+    (h : commitLoopR w b script n total ts = (.ok r, rest)) : r > w := by
+  induction script generalizing n total ts with
+  | nil =>
+    unfold commitLoopR at h
+    split at h
+    · cases h; assumption
+    · split at h <;> simp at h
+  | cons t tl ih =>
+    unfold commitLoopR at h
+    split at h
+    · cases h; assumption
+    · split at h
+      · simp at h
+      · exact ih _ _ _ h
+
+theorem fetchCommitTS_strict (w ms : Nat) (script : List Nat) (r : Nat) (rest : List Nat)
+    (h : fetchCommitTS w ms script = (.ok r, rest)) : r > w := by
+  unfold fetchCommitTS at h
+  split at h
+  · simp at h
+  · split at h
+    · cases h; assumption
+    · split at h
+      · simp at h
+      · split at h
+        · simp at h
+        · exact commitLoopR_strict _ _ _ _ _ _ _ _ h
+
+theorem afterPrewrite_spec (mode : CMode) (beh : StoreBeh) (c ms minC : Nat) (rest : List Nat) (h : minC > c) :
+    CommitWaitSpec mode c (afterPrewrite beh c ms minC rest) := by
+  unfold afterPrewrite
+  split
+  · split
+    · rename_i ts r heq
+      exact ⟨fetchCommitTS_strict _ _ _ _ _ heq, fun _ => h⟩
+    · trivial
+  · exact ⟨h, fun _ => h⟩
+
+theorem afterFetch_spec (mode : CMode) (hm : mode = .twoPC ∨ mode = .pipelined) (beh : StoreBeh) (c ms ts : Nat)
+    (rest : List Nat) (h : ts > c) : CommitWaitSpec mode c (afterFetch beh c ms ts rest) := by
+  have hn : ¬ (mode = .async ∨ mode = .onePC) := by rcases hm with rfl | rfl <;> simp
+  unfold afterFetch
+  split
+  · split
+    · rename_i ts2 r heq
+      exact ⟨fetchCommitTS_strict _ _ _ _ _ heq, fun x => absurd x hn⟩
+    · trivial
+  · exact ⟨h, fun x => absurd x hn⟩
+
+theorem commitTxn_spec (mode : CMode) (causal : Bool) (beh : StoreBeh) (startTS c ms : Nat) (script : List Nat) :
+    CommitWaitSpec mode c (commitTxn mode causal beh startTS c ms script) := by
+  have two : ∀ m : CMode, (m = .twoPC ∨ m = .pipelined) →
+      CommitWaitSpec m c (match fetchCommitTS c ms script with
+        | (.ok ts, rest) => afterFetch beh c ms ts rest
+        | (e, _) => .err e) := by
+    intro m hm
+    split
+    · rename_i ts rest heq
+      exact afterFetch_spec _ hm _ _ _ _ _ (fetchCommitTS_strict _ _ _ _ _ heq)
+    · trivial
+  have one : ∀ m : CMode,
+      CommitWaitSpec m c (if causal = false ∨ c > 0 then
+        match fetchCommitTS c ms script with
+        | (.ok ts, rest) => afterPrewrite beh c ms (max (startTS + 1) (ts + 1)) rest
+        | (e, _) => .err e
+      else afterPrewrite beh c ms (startTS + 1) script) := by
+    intro m
+    split
+    · split
+      · rename_i ts rest heq
+        have := fetchCommitTS_strict _ _ _ _ _ heq
+        exact afterPrewrite_spec _ _ _ _ _ _ (by omega)
+      · trivial
+    · exact afterPrewrite_spec _ _ _ _ _ _ (by omega)
+  cases mode
+  · exact two _ (Or.inl rfl)
+  · exact one _
+  · exact one _
+  · exact two _ (Or.inr rfl)
+
 /-! ### adaptive update interval -/
 
 /-- every (state, interval) a check proposes lies within the bounds -/
